@@ -512,6 +512,58 @@ class FedSim(object):
             return rec
         return self.make_response(ev, fl, idp, ra, rec)
 
+    def ev_aq_answer(self, ev, i):
+        """The attribute authority answers the attribute query of flow f over SOAP."""
+        fl = self.flows.get(ev["f"])
+        po = getattr(fl, "parsed_other", None) if fl else None
+        if not po or not po[0] in self.nodes:
+            return None
+        idp = self.nodes[po[0]]
+        req = po[1]
+        if type(req.message).__name__ != "AttributeQuery":
+            return None
+        p = ev.get("p") or {}
+        identity = {k: list(v) for k, v in (p.get("identity") or {}).items()}
+        srv = idp.server
+        w = self.world
+        rec = {"f": ev["f"], "idp": idp.name, "p": p, "aq": True}
+        self.install_tool_faults(ev)
+        n0 = len(w.tool.invocations)
+        idp_now = int(w.clock.now(idp.name))
+        rec["signing_key"] = "k%d" % idp.spec.get("actual_key", idp.spec["key"])
+        try:
+            with w.on(idp.name):
+                ra = srv.response_args(req.message, [BINDING_SOAP])
+                nid = req.message.subject.name_id
+                resp = srv.create_attribute_response(
+                    identity, ra["in_response_to"], "", ra["sp_entity_id"], name_id=nid,
+                    sign_assertion=bool(p.get("sign_assertion")), sign_response=bool(p.get("sign_response")),
+                    sign_alg=p.get("sigalg"), digest_alg=p.get("digalg"))
+                http = srv.apply_binding(BINDING_SOAP, "%s" % resp, "", "", response=True)
+        except Exception as e:
+            rec["error"] = type(e).__name__
+            rec["error_msg"] = str(e)[:200]
+            rec["tool"] = self.tool_slice(n0)
+            self.count("aq_answer.error." + type(e).__name__)
+            return rec
+        rec["tool"] = self.tool_slice(n0)
+        msg = {"binding": "soap", "dest": "", "fields": {"SAMLResponse": http["data"]}, "from": idp.name,
+               "param": "SAMLResponse", "kind": "attribute_response", "answer": rec}
+        msg["asked"] = {"identity": identity, "p": dict(p, name_id={"text": nid.text, "format": nid.format,
+                                                                   "sp_name_qualifier": nid.sp_name_qualifier,
+                                                                   "name_qualifier": nid.name_qualifier}),
+                        "idp_now": idp_now, "sp_entity": ra["sp_entity_id"], "irt": ra["in_response_to"],
+                        "issuer": idp.entity_id, "signing_key": rec["signing_key"], "attribute_response": True}
+        try:
+            msg["xml"] = decode_value(http["data"], "soap")
+        except Exception:
+            msg["xml"] = None
+        fl.responses.append(msg)
+        rec["r"] = len(fl.responses) - 1
+        rec["ok"] = True
+        self.count("aq_answer")
+        return rec
+
     def ev_unsol(self, ev, i):
         idp = self.nodes.get(ev["idp"])
         sp_name = ev["sp"]
@@ -749,8 +801,11 @@ class FedSim(object):
         sp = self.nodes.get(to)
         if sp is None or sp.kind != "sp":
             return None
-        via = ev.get("via") or ("acs_post" if msg["binding"] == "post" else "acs_redirect")
-        via_binding = "redirect" if via.endswith("redirect") else "post"
+        if msg["binding"] == "soap":
+            via, via_binding = "soap_backchannel", "soap"
+        else:
+            via = ev.get("via") or ("acs_post" if msg["binding"] == "post" else "acs_redirect")
+            via_binding = "redirect" if via.endswith("redirect") else "post"
         value = msg["fields"].get("SAMLResponse")
         if value is None:
             return None
@@ -759,6 +814,15 @@ class FedSim(object):
             value, mutdesc = mutate_value(value, msg["binding"], ev["mut"], mkrng(ev.get("sub", 0), "mut"))
             if mutdesc.startswith("nomut") or mutdesc == "undecodable":
                 mutdesc = None if value == msg["fields"].get("SAMLResponse") else mutdesc
+        if ev.get("reencode") and msg["binding"] != via_binding and msg["binding"] in ("post", "redirect"):
+            # a gateway in front of the SP hands the message to the handler of the SP's other binding,
+            # re-encoded for it
+            try:
+                raw = decode_value(value, msg["binding"])
+                value = wire.deflate_b64(raw) if via_binding == "redirect" else base64.b64encode(raw).decode("ascii")
+                self.count("fault.reencode")
+            except Exception:
+                pass
         conv = None
         if ev.get("conv"):
             conv = {"entity_id": sp.entity_id, "remote_addr": "0.0.0.0"}
@@ -768,15 +832,18 @@ class FedSim(object):
                "now": int(w.clock.now(to)), "now_f": w.clock.now(to),
                "outstanding": sorted(sp.outstanding.keys()), "value": value,
                "asked": msg.get("asked"), "tf": ev.get("tf"), "dup": ev.get("dup", False),
-               "from": msg["from"]}
+               "from": msg["from"], "msgkind": msg.get("kind", "response")}
         self.install_tool_faults(ev)
         n0 = len(w.tool.invocations)
         subjects_before = self.sp_subjects(sp)
         out = {"accepted": False, "exc": None, "none": False}
         try:
             with w.on(to):
-                resp = sp.client.parse_authn_request_response(
-                    value, BIND[via_binding], sp.outstanding, conv_info=conv)
+                if via_binding == "soap":
+                    resp = sp.client.parse_attribute_query_response(value, BINDING_SOAP)
+                else:
+                    resp = sp.client.parse_authn_request_response(
+                        value, BIND[via_binding], sp.outstanding, conv_info=conv)
             if resp is None:
                 out["none"] = True
             else:
